@@ -15,6 +15,7 @@ typedef struct { int n; ZSTD_cParameter p[VP_MAXP]; int v[VP_MAXP]; int level; i
 #define VP_NOMAXBLOCK 32u
 
 static void vp_add(vparams* P, ZSTD_cParameter p, int v) { if (P->n < VP_MAXP) { P->p[P->n] = p; P->v[P->n] = v; P->n++; } }
+static void vp_redesc(vparams* P) { int o = 0; P->desc[0] = 0; for (int i = 0; i < P->n && o < (int)sizeof(P->desc) - 16; i++) o += snprintf(P->desc + o, sizeof(P->desc) - (size_t)o, "%s%d=%d", i ? "," : "", (int)P->p[i], P->v[i]); }
 static void vp_random(vrng* r, vparams* P, unsigned flags)
 {
     memset(P, 0, sizeof *P);
@@ -69,7 +70,7 @@ static void vp_random(vrng* r, vparams* P, unsigned flags)
         if (vr_chance(r, 1, 2)) vp_add(P, ZSTD_c_overlapLog, (int)vr_range(r, 0, 9));
         if (vr_chance(r, 1, 4)) vp_add(P, ZSTD_c_rsyncable, 1);
     }
-    {   int o = 0; for (int i = 0; i < P->n && o < (int)sizeof(P->desc) - 16; i++) o += snprintf(P->desc + o, sizeof(P->desc) - (size_t)o, "%s%d=%d", i ? "," : "", (int)P->p[i], P->v[i]); }
+    vp_redesc(P);
 }
 /* keep only the level (used to bound memory): derived fields are reset with the list */
 static void vp_level_only(vparams* P) { int const l = P->level; memset(P, 0, sizeof *P); P->level = l; P->contentSize = 1; vp_add(P, ZSTD_c_compressionLevel, l); snprintf(P->desc, sizeof P->desc, "%d=%d", (int)ZSTD_c_compressionLevel, l); }
